@@ -12,7 +12,7 @@ CONSTANTS
  MCTgtByDigest = {FALSE}
  MaxFaults = 1
  AllowCancel = TRUE
- AllowCrash = TRUE
+ AllowCrash = FALSE
  Cap = 0
 INIT Init
 NEXT Next
